@@ -15,7 +15,7 @@ def chk(pid, category, text, note, technique, design_ref):
 
 CHECKS = [
     chk("C05", "proof",
-        "Engine A symbolically executes the real AST of sets_k_fold_pattern, sets_k_fold_rdm, sets_leave_one_out_pattern/_rdm and "
+        "(Also discharged in this run, as callee contracts the generators and the cross-validation rely on: RDMs.subset selects exactly the RDMs carrying a requested value -- also on resampled objects whose index has repeats and gaps -- and _internal_cv builds its folds from sets_k_fold with the caller's rdm and pattern descriptors.) Engine A symbolically executes the real AST of sets_k_fold_pattern, sets_k_fold_rdm, sets_leave_one_out_pattern/_rdm and "
         "sets_of_k_pattern/_rdm (re-read from /repo on every run) and z3 discharges, for all numbers of groups, all k, both "
         "k=None/int and every shuffle permutation (havoc): test/train subsets of the groups, train-test disjointness, train = complement, "
         "folds pairwise disjoint, every group in some test fold, fold sizes differ by <= 1, returned objects are exactly the "
@@ -35,7 +35,7 @@ CHECKS = [
         "n_obs - #conditions; every list branch of cov_from_residuals/measurements/unbalanced returns element i = single-input estimate of "
         "element i with dof None / dof / dof[i]; every prec_from_* returns inv(cov) per element for list, 3-D and 2-D covariances. Engine B "
         "(real functions on sympy object arrays) proves full = Xc'Xc/dof, diag = its diagonal, symmetry and measurement-based = unbalanced "
-        "for all real values at small shapes. Engine A also proves for all inputs that the shrinkage factor of _covariance_diag lies in [0,1] and leaves the diagonal untouched. Shrinkage target of _covariance_eye / PSD / numeric inverse are bounded run-time oracle "
+        "for all real values at small shapes. Engine A also proves for all inputs that the shrinkage factor of _covariance_diag lies in [0,1] and leaves the diagonal untouched, and that _covariance_eye returns either the sample covariance or (w1 * m I + w2 * s) * n / dof with the equal-trace target m = trace(s)/p, w1 + w2 = 1 and 0 <= w1 <= 1 (b2 capped by d2; non-negativity of b2 and d2 from two Lean/Mathlib lemmas -- mean of squares >= square of the mean, sums of squares >= 0 -- linked to the code by structural obligations). PSD / numeric inverse / typed data / extreme units are bounded run-time oracle "
         "checks (not counted as proved).",
         "Assumed: np.linalg.inv, np.mean, einsum as uninterpreted/pure; get_unique_inverse contract (bounded oracle); reals for floats; "
         "engine-B proxy overrides listed in evidence. Bounded: shapes <= 4x3 (B), n<=12,p<=8 (C).",
@@ -67,7 +67,7 @@ CHECKS = [
         'contract-based deductive verification: sidecar contracts on the real functions, ast->z3 VC generation on the real source (re-read every run), external z3 portfolio + symbolic execution of the real functions on sympy arrays (engine B) + bounded run-time oracles',
         'DESIGN.md C01'),
     chk('C02', 'other',
-        'Engine B executes the real calc_rdm_crossnobis / calc_rdm_poisson_cv on sympy object arrays (only the module-global np is proxied) and decides by normal form, for ALL real data at each listed fold-balanced design (C<=3, M<=3, R<=2; three row orders; int/str folds): value = mean over ordered pairs of distinct folds of the between-fold bilinear form / P, with identity, one symbolic symmetric precision, one precision per fold (pair precision = inverse of the averaged covariances), remove_mean on both sides, regularised log rates for poisson_cv. Refutations are replayed on the unpatched function with floats. Larger designs, invariances, default fold descriptor: bounded oracle tier.',
+        'Engine A proves that calc_rdm hands a single dataset to calc_rdm_crossnobis / calc_rdm_poisson_cv with EXACTLY the caller\'s options (any value, also 0 / None / False) and discharges the callee contract of the fold selection helper bool_index (a flag exactly where the descriptor has a requested value). Engine B executes the real calc_rdm_crossnobis / calc_rdm_poisson_cv on sympy object arrays (only the module-global np is proxied) and decides by normal form, for ALL real data at each listed fold-balanced design (C<=3, M<=3, R<=2; three row orders; int/str folds): value = mean over ordered pairs of distinct folds of the between-fold bilinear form / P, with identity, one symbolic symmetric precision, one precision per fold (pair precision = inverse of the averaged covariances), remove_mean on both sides, regularised log rates for poisson_cv. Refutations are replayed on the unpatched function with floats. Larger designs, invariances, default fold descriptor: bounded oracle tier.',
         'bounded in shape (designs listed in evidence); floats as reals; np.linalg.inv / log proxies assumed; average_dataset_by / sort_by executed for real (not assumed)',
         'symbolic execution of the real functions on sympy object arrays with spec identities decided by normal form (bounded shapes, all real values) + bounded run-time oracles',
         'DESIGN.md C02'),
